@@ -152,6 +152,7 @@ def run(ck):
     kind = rng.choice(['false', 'false', 'conv', 'ring', 'ring', 'div', 'divcond'])
     d, expect = gen_cyclic(rng, kind)
     src = d.source()
+    ck.extra_cov.setdefault('sample_design_source', src)
     cls = rtlgen.load_class(ck.workdir, d)
     cycles = rtlgen.gen_inputs(rng, d, rng.randint(4, 8))
     ck.hist('kind', kind)
